@@ -10,196 +10,98 @@ open RgVerif RgVerif.Matcher RgVerif.Interp RgVerif.ReplaceSpec RgVerif.Replace 
 open RgVerif.ReplaceMulti
 open RgVerif.Lemmas.ReplaceIter RgVerif.Lemmas.ReplaceFold RgVerif.Lemmas.PrinterMulti
 
-/-- the matches `replace_all` keeps for the range `[rs, re)` of the (cut) haystack `hay` -/
+/-- a match `replace_all` replaces: it starts inside the range (or exactly at its unterminated end) and — since
+2e6bd1f — ends inside it, so that its expansion cannot copy bytes from beyond the reported lines -/
+def keepIn (re : Nat) (atEnd : Bool) (c : Caps) : Bool := keep re atEnd c && decide ((sp c).e ≤ re)
+
+/-- the matches `replace_all` replaces for the range `[rs, re)` of the (cut) haystack `hay`: the iterator's matches
+up to the first one that starts beyond the range or reaches beyond it -/
 def kept (capsAt : Nat → Option Caps) (hay : Bytes) (rs re : Nat) (atEnd : Bool) : List Caps :=
-  (allMatches capsAt hay.length rs).takeWhile (keep re atEnd)
+  (allMatches capsAt hay.length rs).takeWhile (keepIn re atEnd)
 
-/-! ### the regex iterator yields sorted, disjoint matches -/
+theorem keepIn_iff (re : Nat) (atEnd : Bool) (c : Caps) :
+    keepIn re atEnd c = true ↔ (((sp c).s < re ∨ (atEnd = true ∧ (sp c).s = re)) ∧ (sp c).e ≤ re) := by
+  unfold keepIn keep
+  simp [Bool.and_eq_true, Bool.or_eq_true]
 
-theorem specIter_lower {capsAt : Nat → Option Caps} {len : Nat} (hs : Sane capsAt len) :
-    ∀ fuel pos last c, c ∈ specIter capsAt len fuel pos last → pos ≤ (sp c).s := by
-  intro fuel
-  induction fuel with
-  | zero => intro pos last c h; simp [specIter] at h
-  | succ fuel ih =>
-    intro pos last c h
-    rw [specIter_succ] at h
-    by_cases hgt : pos > len
-    · simp [hgt] at h
-    · simp only [hgt, ↓reduceIte] at h
-      cases hc : capsAt pos with
-      | none => simp [hc] at h
-      | some c0 =>
-        simp only [hc] at h
-        split at h
-        · unfold retry at h
-          by_cases hgt' : pos + 1 > len
-          · simp [hgt'] at h
-          · simp only [hgt', ↓reduceIte] at h
-            cases hc' : capsAt (pos + 1) with
-            | none => simp [hc'] at h
-            | some c1 =>
-              simp only [hc', List.mem_cons] at h
-              have h1 := hs.ge _ _ hc'
-              have h2 := hs.le _ _ hc'
-              rcases h with rfl | h
-              · omega
-              · have := ih _ _ _ h; omega
-        · simp only [List.mem_cons] at h
-          have h1 := hs.ge _ _ hc
-          have h2 := hs.le _ _ hc
-          rcases h with rfl | h
-          · exact h1
-          · have := ih _ _ _ h; omega
+theorem beyondRange_eq_false_iff (re : Nat) (atEnd : Bool) (s : Nat) :
+    beyondRange re atEnd s = false ↔ (s < re ∨ (atEnd = true ∧ s = re)) := by
+  unfold beyondRange
+  cases atEnd <;> simp <;> omega
 
-theorem specIter_pairwise {capsAt : Nat → Option Caps} {len : Nat} (hs : Sane capsAt len) :
-    ∀ fuel pos last, (specIter capsAt len fuel pos last).Pairwise (fun a b => (sp a).e ≤ (sp b).s) := by
-  intro fuel
-  induction fuel with
-  | zero => intro pos last; simp [specIter]
-  | succ fuel ih =>
-    intro pos last
-    rw [specIter_succ]
-    by_cases hgt : pos > len
-    · simp [hgt]
-    · simp only [hgt, ↓reduceIte]
-      cases hc : capsAt pos with
-      | none => simp
-      | some c0 =>
-        simp only
-        split
-        · unfold retry
-          by_cases hgt' : pos + 1 > len
-          · simp [hgt']
-          · simp only [hgt', ↓reduceIte]
-            cases hc' : capsAt (pos + 1) with
-            | none => simp
-            | some c1 =>
-              simp only [List.pairwise_cons]
-              exact ⟨fun x hx => specIter_lower hs _ _ _ x hx, ih _ _⟩
-        · simp only [List.pairwise_cons]
-          exact ⟨fun x hx => specIter_lower hs _ _ _ x hx, ih _ _⟩
+theorem step_of_keepIn (names : List (Bytes × Nat)) (bytes : Bytes) (re : Nat) (atEnd : Bool) (tmpl : Bytes)
+    (st : RState) (c : Caps) (hk : keepIn re atEnd c = true) :
+    replaceStep names bytes re atEnd tmpl st c =
+      (⟨(sp c).e, st.dst ++ slice bytes st.lastMatch (sp c).s ++ interpolate (envOf bytes names c) tmpl,
+        st.spans ++ [⟨(st.dst ++ slice bytes st.lastMatch (sp c).s).length,
+          (st.dst ++ slice bytes st.lastMatch (sp c).s).length + (interpolate (envOf bytes names c) tmpl).length⟩]⟩,
+       true) := by
+  obtain ⟨h1, h2⟩ := (keepIn_iff re atEnd c).mp hk
+  have hb : beyondRange re atEnd (sp c).s = false := (beyondRange_eq_false_iff re atEnd _).mpr h1
+  have he : ¬ ((sp c).e > re) := by omega
+  unfold replaceStep
+  simp only [sp] at hb he ⊢
+  simp [hb, he]
 
-/-- sorted, disjoint, well-formed: what the fold below needs of the iterator's matches -/
-def SortedCaps (ms : List Caps) : Prop :=
-  ms.Pairwise (fun a b => (sp a).e ≤ (sp b).s) ∧ ∀ c ∈ ms, (sp c).s ≤ (sp c).e
+theorem step_of_not_keepIn (names : List (Bytes × Nat)) (bytes : Bytes) (re : Nat) (atEnd : Bool) (tmpl : Bytes)
+    (st : RState) (c : Caps) (hk : keepIn re atEnd c = false) :
+    replaceStep names bytes re atEnd tmpl st c = (st, false) := by
+  have hn : ¬ (((sp c).s < re ∨ (atEnd = true ∧ (sp c).s = re)) ∧ (sp c).e ≤ re) := by
+    intro h
+    have := (keepIn_iff re atEnd c).mpr h
+    rw [hk] at this
+    exact absurd this (by simp)
+  unfold replaceStep
+  by_cases hb : beyondRange re atEnd (sp c).s = true
+  · simp only [sp] at hb ⊢
+    simp [hb]
+  · have hb' : beyondRange re atEnd (sp c).s = false := by simpa using hb
+    have h1 := (beyondRange_eq_false_iff re atEnd _).mp hb'
+    have he : (sp c).e > re := by
+      by_cases h : (sp c).e ≤ re
+      · exact absurd ⟨h1, h⟩ hn
+      · omega
+    simp only [sp] at hb' he ⊢
+    simp [hb', he]
 
-theorem allMatches_sorted {capsAt : Nat → Option Caps} {len : Nat} (hs : Sane capsAt len) (start : Nat) :
-    SortedCaps (allMatches capsAt len start) := by
-  refine ⟨specIter_pairwise hs _ _ _, ?_⟩
-  intro c hc
-  obtain ⟨p, hp⟩ := specIter_mem hc
-  exact hs.le p c hp
-
-/-! ### the replace loop over sorted matches, with `last_match` clamped to the end of the range -/
-
-theorem fold_stop (names : List (Bytes × Nat)) (bytes : Bytes) (re : Nat) (atEnd : Bool) (tmpl : Bytes)
-    (ms : List Caps) (st : RState) (h : ∀ c ∈ ms, keep re atEnd c = false) :
-    foldUntil (replaceStep names bytes re atEnd tmpl) st ms = st ∧ ms.takeWhile (keep re atEnd) = [] := by
-  cases ms with
-  | nil => simp [foldUntil]
-  | cons c rest =>
-    have hk := h c (by simp)
-    have hcond : beyondRange re atEnd (sp c).s = true := by
-      unfold keep at hk
-      unfold beyondRange
-      cases atEnd <;> simp at hk ⊢ <;> omega
-    have hstep : replaceStep names bytes re atEnd tmpl st c = (st, false) := by
-      unfold replaceStep; simp only [sp] at hcond; simp [hcond]
-    simp [foldUntil, hstep, List.takeWhile_cons, hk]
-
-/-- **The replace loop is replace-all over the kept matches**, also when a kept match reaches beyond the range
-(then it is the last one kept: every later match starts behind it). -/
-theorem fold_spec_sorted (names : List (Bytes × Nat)) (bytes : Bytes) (re to : Nat) (atEnd : Bool) (tmpl : Bytes)
-    (hto : to ≤ re) :
-    ∀ (ms : List Caps), SortedCaps ms → ∀ (st : RState),
+/-- **The replace loop is replace-all over the replaced matches**; the loop stops at the first match that starts
+beyond the range or reaches beyond it, and everything from there to the end of the range is copied verbatim. -/
+theorem fold_spec_multi (names : List (Bytes × Nat)) (bytes : Bytes) (re to : Nat) (atEnd : Bool) (tmpl : Bytes) :
+    ∀ (ms : List Caps) (st : RState),
       (foldUntil (replaceStep names bytes re atEnd tmpl) st ms).dst ++
         slice bytes (foldUntil (replaceStep names bytes re atEnd tmpl) st ms).lastMatch to =
       st.dst ++ replaceAllSpec bytes (fun c => interpolate (envOf bytes names c) tmpl)
-        (ms.takeWhile (keep re atEnd)) st.lastMatch to := by
+        (ms.takeWhile (keepIn re atEnd)) st.lastMatch to := by
   intro ms
   induction ms with
-  | nil => intro _ st; simp [foldUntil, replaceAllSpec, slice]
+  | nil => intro st; simp [foldUntil, replaceAllSpec, slice]
   | cons c ms ih =>
-    intro hsorted st
-    have hpw := hsorted.1
-    rw [List.pairwise_cons] at hpw
-    have hrest : SortedCaps ms := ⟨hpw.2, fun x hx => hsorted.2 x (by simp [hx])⟩
-    by_cases hk : keep re atEnd c = true
-    · have hcond : beyondRange re atEnd (sp c).s = false := by
-        unfold keep at hk
-        unfold beyondRange
-        cases atEnd <;> simp at hk ⊢ <;> omega
-      have hstep : replaceStep names bytes re atEnd tmpl st c =
-          (⟨min (sp c).e re, st.dst ++ slice bytes st.lastMatch (sp c).s ++ interpolate (envOf bytes names c) tmpl,
-            st.spans ++ [⟨(st.dst ++ slice bytes st.lastMatch (sp c).s).length,
-              (st.dst ++ slice bytes st.lastMatch (sp c).s).length + (interpolate (envOf bytes names c) tmpl).length⟩]⟩,
-           true) := by
-        unfold replaceStep; simp only [sp] at hcond ⊢; simp [hcond]
-      simp only [foldUntil, hstep, ↓reduceIte, List.takeWhile_cons, hk]
-      by_cases hce : (sp c).e ≤ re
-      · have hmin : min (sp c).e re = (sp c).e := by omega
-        rw [ih hrest, hmin]
-        simp [replaceAllSpec, slice, sp, List.append_assoc]
-      · -- the match reaches beyond the range: nothing behind it is kept
-        have hnone : ∀ r ∈ ms, keep re atEnd r = false := by
-          intro r hr
-          have := hpw.1 r hr
-          unfold keep
-          cases atEnd <;> simp <;> omega
-        obtain ⟨hf, htw⟩ := fold_stop names bytes re atEnd tmpl ms
-          ⟨min (sp c).e re, st.dst ++ slice bytes st.lastMatch (sp c).s ++ interpolate (envOf bytes names c) tmpl,
-            st.spans ++ [⟨(st.dst ++ slice bytes st.lastMatch (sp c).s).length,
-              (st.dst ++ slice bytes st.lastMatch (sp c).s).length + (interpolate (envOf bytes names c) tmpl).length⟩]⟩
-          hnone
-        rw [hf, htw]
-        have hmin : min (sp c).e re = re := by omega
-        have e1 : slice bytes re to = [] := by
-          unfold slice; apply List.drop_eq_nil_of_le; simp [List.length_take]; omega
-        have e2 : (bytes.take to).drop (sp c).e = [] := by
-          apply List.drop_eq_nil_of_le; simp [List.length_take]; omega
-        simp only [hmin, e1, replaceAllSpec, List.append_nil]
-        simp [slice, sp, e2, List.append_assoc] at e2 ⊢
-        simpa [sp] using e2
-    · have hcond : beyondRange re atEnd (sp c).s = true := by
-        unfold keep at hk
-        unfold beyondRange
-        cases atEnd <;> simp at hk ⊢ <;> omega
-      have hstep : replaceStep names bytes re atEnd tmpl st c = (st, false) := by
-        unfold replaceStep; simp only [sp] at hcond; simp [hcond]
-      simp [foldUntil, hstep, List.takeWhile_cons, hk, replaceAllSpec, slice]
+    intro st
+    by_cases hk : keepIn re atEnd c = true
+    · simp only [foldUntil, step_of_keepIn names bytes re atEnd tmpl st c hk, ↓reduceIte, List.takeWhile_cons, hk]
+      rw [ih]
+      simp [replaceAllSpec, slice, sp, List.append_assoc]
+    · have hk' : keepIn re atEnd c = false := by simpa using hk
+      simp [foldUntil, step_of_not_keepIn names bytes re atEnd tmpl st c hk', hk', replaceAllSpec, slice]
 
 theorem fold_spans (names : List (Bytes × Nat)) (bytes : Bytes) (re : Nat) (atEnd : Bool) (tmpl : Bytes) :
     ∀ (ms : List Caps) (st : RState),
       (foldUntil (replaceStep names bytes re atEnd tmpl) st ms).spans.length =
-        st.spans.length + (ms.takeWhile (keep re atEnd)).length := by
+        st.spans.length + (ms.takeWhile (keepIn re atEnd)).length := by
   intro ms
   induction ms with
   | nil => intro st; simp [foldUntil]
   | cons c ms ih =>
     intro st
-    by_cases hk : keep re atEnd c = true
-    · have hcond : beyondRange re atEnd (sp c).s = false := by
-        unfold keep at hk
-        unfold beyondRange
-        cases atEnd <;> simp at hk ⊢ <;> omega
-      have hstep : ∃ st' x, replaceStep names bytes re atEnd tmpl st c = (st', true) ∧ st'.spans = st.spans ++ [x] := by
-        unfold replaceStep; simp only [sp] at hcond ⊢; simp only [hcond, Bool.false_eq_true, ↓reduceIte]
-        exact ⟨_, _, rfl, rfl⟩
-      obtain ⟨st', x, hst', hsp⟩ := hstep
-      simp only [foldUntil, hst', ↓reduceIte, List.takeWhile_cons, hk]
-      rw [ih st', hsp]
+    by_cases hk : keepIn re atEnd c = true
+    · simp only [foldUntil, step_of_keepIn names bytes re atEnd tmpl st c hk, ↓reduceIte, List.takeWhile_cons, hk]
+      rw [ih]
       simp; omega
-    · have hcond : beyondRange re atEnd (sp c).s = true := by
-        unfold keep at hk
-        unfold beyondRange
-        cases atEnd <;> simp at hk ⊢ <;> omega
-      have hstep : replaceStep names bytes re atEnd tmpl st c = (st, false) := by
-        unfold replaceStep; simp only [sp] at hcond; simp [hcond]
-      simp [foldUntil, hstep, hk]
+    · have hk' : keepIn re atEnd c = false := by simpa using hk
+      simp [foldUntil, step_of_not_keepIn names bytes re atEnd tmpl st c hk', hk']
 
-/-- `replace_all` in multi-line mode: its buffer is the replace-all over the kept matches, one expansion offset per
-kept match — for every sane matcher, no guard. -/
+/-- `replace_all` in multi-line mode: its buffer is the replace-all over the replaced matches, one expansion offset
+per replaced match — for every sane matcher, no guard. -/
 theorem replaceAllMulti_eq (sc : SCfg) (capsAtOf : Bytes → Nat → Option Caps) (names : List (Bytes × Nat))
     (haystack : Bytes) (rs re : Nat) (tmpl : Bytes)
     (hs : Sane (capsAtOf (cutHaystack sc haystack re)) (cutHaystack sc haystack re).length) :
@@ -219,14 +121,36 @@ theorem replaceAllMulti_eq (sc : SCfg) (capsAtOf : Bytes → Nat → Option Caps
   rw [iterGo_eq_fold]
   have hc := collect_eq_allMatches hs rs
   rw [hc]
-  have hsorted := allMatches_sorted hs rs
-  have h1 := fold_spec_sorted names (cutHaystack sc haystack re) re (min (cutHaystack sc haystack re).length re)
-    (isAtUnterminatedEnd sc.lt (cutHaystack sc haystack re) rs re) tmpl (by omega)
-    (allMatches (capsAtOf (cutHaystack sc haystack re)) (cutHaystack sc haystack re).length rs) hsorted ⟨rs, [], []⟩
+  have h1 := fold_spec_multi names (cutHaystack sc haystack re) re (min (cutHaystack sc haystack re).length re)
+    (isAtUnterminatedEnd sc.lt (cutHaystack sc haystack re) rs re) tmpl
+    (allMatches (capsAtOf (cutHaystack sc haystack re)) (cutHaystack sc haystack re).length rs) ⟨rs, [], []⟩
   have h2 := fold_spans names (cutHaystack sc haystack re) re
     (isAtUnterminatedEnd sc.lt (cutHaystack sc haystack re) rs re) tmpl
     (allMatches (capsAtOf (cutHaystack sc haystack re)) (cutHaystack sc haystack re).length rs) ⟨rs, [], []⟩
   exact ⟨by simpa [kept] using h1, by simpa [kept] using h2⟩
+
+theorem mem_takeWhile_true {α : Type} (p : α → Bool) : ∀ (l : List α) (x : α), x ∈ l.takeWhile p → p x = true := by
+  intro l
+  induction l with
+  | nil => intro x h; simp at h
+  | cons a l ih =>
+    intro x h
+    rw [List.takeWhile_cons] at h
+    by_cases ha : p a = true
+    · simp only [ha, ↓reduceIte, List.mem_cons] at h
+      rcases h with rfl | h
+      · exact ha
+      · exact ih x h
+    · simp [ha] at h
+
+/-- every replaced match lies inside the block: its expansion is built from captures of a match within `[rs, re]` -/
+theorem kept_inside (capsAt : Nat → Option Caps) (hay : Bytes) (rs re : Nat) (atEnd : Bool) :
+    ∀ c ∈ kept capsAt hay rs re atEnd, (sp c).e ≤ re := by
+  intro c hc
+  have := mem_takeWhile_true _ _ c hc
+  unfold keepIn at this
+  simp only [Bool.and_eq_true, decide_eq_true_eq] at this
+  exact this.2
 
 /-- the replaced text of the block `[rs, re)`: replace-all (with ripgrep's interpolation) over the kept matches
 of the cut haystack, unmatched text copied, up to the end of the block -/
